@@ -103,8 +103,10 @@ class DBusClientConnection (txdbus.protocol.BasicDBusProtocol):
             self.factory._failed(reason)
             return
 
-        for cb in self._dcCallbacks:
-            cb(self, reason)
+        # a callback may unregister itself (or another one) while it runs
+        for cb in list(self._dcCallbacks):
+            if cb in self._dcCallbacks:
+                cb(self, reason)
 
         # a failure handler may issue further calls on this (dead) connection
         # while the outstanding ones are being failed: those are outstanding
